@@ -408,6 +408,17 @@ def install(world):
         raise Unsupported('hasattr on %r' % (x,))
     reg('hasattr', b_hasattr)
 
+    def b_setattr(it, node, o, name, value):
+        if isinstance(o, SVal):
+            # writing a member of an opaque (host) object: a logged effect
+            it.calls.append(('setattr', (o, name, value), None))
+            return None
+        if isinstance(name, str) and type(o).__name__ == 'ObjVal':
+            o.fields[name] = value
+            return None
+        raise Unsupported('setattr(%r, %r)' % (o, name))
+    reg('setattr', b_setattr, True)
+
     def b_getattr(it, node, o, name, *default):
         if isinstance(o, SVal):
             # reading a member of an opaque (host) object: a logged effect
@@ -647,6 +658,19 @@ def install(world):
                 d > half, f + 1, z3.If(f % 2 == 0, f, f + 1))))
         return apply_uf('py.round', (x, 0 if nd is None else nd), 'Val')
     reg('round', b_round)
+
+    def b_hash(x):
+        # hash(): an uninterpreted function of the VALUE (equal values, e.g.
+        # equal tuples, have equal hashes)
+        if not S.is_sym(x) and not isinstance(x, (tuple, list, dict)):
+            try:
+                return hash(x) if isinstance(x, (int, bool, type(None))) \
+                    else SInt(uf('py.hash', S.Val, z3.IntSort())(
+                        S.box_any(x)))
+            except TypeError:
+                pass
+        return SInt(uf('py.hash', S.Val, z3.IntSort())(S.box_any(x)))
+    reg('hash', b_hash)
 
     def b_hex(x):
         return apply_uf('py.hex', (x,), 'Str') if S.is_sym(x) else hex(x)
